@@ -10,6 +10,7 @@ var Checks = map[string]func(*Env) (int, error){
 	"C06": CheckC06,
 	"C07": CheckC07,
 	"C09": CheckC09,
+	"C12": CheckC12,
 	"C13": CheckC13,
 }
 
@@ -23,8 +24,10 @@ func Replay(e *Env, path string) (int, error) {
 	if err := json.Unmarshal(b, &rf); err != nil {
 		return 2, Troublef("%s: %v", path, err)
 	}
-	if err := e.CopyRepo(); err != nil {
-		return 2, err
+	if rf.Engine != "schedsim" {
+		if err := e.CopyRepo(); err != nil {
+			return 2, err
+		}
 	}
 	var eng Engine
 	switch rf.Engine {
@@ -56,6 +59,12 @@ func Replay(e *Env, path string) (int, error) {
 			return 2, err
 		}
 		eng = &c07Engine{e: e, src: src, cold: cold}
+	case "schedsim":
+		g, _, err := buildC12(e)
+		if err != nil {
+			return 2, err
+		}
+		eng = g
 	default:
 		return 2, Troublef("unknown engine %q in %s", rf.Engine, path)
 	}
